@@ -255,7 +255,7 @@ theorem maxFrameFrom_eq_frameLoop (s : Inst) (i : Nat) (fuel f : Nat) :
 /-- `maxFrame` is the model's `calcFrameIdx` in building mode -/
 theorem maxFrame_eq_calcFrameIdx (s : Inst) (i : Nat) (hb : s.selfParentFrame (s.ev i) < 2147483648) :
     s.maxFrame i = Model.Election.calcFrameIdx (s.quorumOn i) (s.selfParentFrame (s.ev i)) 0 false := by
-  unfold Inst.maxFrame Model.Election.calcFrameIdx Gen.Orderer.maxFrameToCheck Gen.Orderer.frameIsZero
+  unfold Inst.maxFrame Model.Election.calcFrameIdx Gen.Orderer.maxFrameToCheck Gen.Orderer.useClaimedBound Gen.Orderer.frameIsZero
     Gen.Orderer.frameIfZero
   simp only []
   generalize s.selfParentFrame (s.ev i) = spf at hb
